@@ -117,6 +117,7 @@ type scenario struct {
 	Ops           []op    `json:"ops"`
 	NoTrackLexeme bool    `json:"noTrackLexeme"`
 	Exp           []int   `json:"exp,omitempty"` // results the implementation-shaped model predicts, one per op (-1: none)
+	MemK          *int    `json:"memk,omitempty"` // Free discipline promised by this scenario (Stream.tla: memk); nil: none
 }
 
 type runner struct {
@@ -156,7 +157,11 @@ func start(w *tr.Writer, sc *scenario) *runner {
 		data[i] = byte(v)
 	}
 	x := &runner{w: w, data: data, trackLexeme: !sc.NoTrackLexeme}
-	w.Ev("New", tr.E{"mode": sc.Mode, "data": sc.Data, "endKind": sc.EndKind, "size": sc.Size, "noTrackLexeme": sc.NoTrackLexeme})
+	memk := -1
+	if sc.MemK != nil {
+		memk = *sc.MemK
+	}
+	w.Ev("New", tr.E{"mode": sc.Mode, "data": sc.Data, "endKind": sc.EndKind, "size": sc.Size, "noTrackLexeme": sc.NoTrackLexeme, "memk": memk})
 	if sc.Mode == "bytes" {
 		x.z = buffer.NewStreamLexerSize(&bytesReader{append([]byte{}, data...)}, sc.Size)
 	} else {
@@ -362,8 +367,13 @@ func Record(args []string) {
 		isLong := t > *n
 		sc := scenario{Mode: "reader", EndKind: "eof"}
 		nfr := rng.Intn(12)
+		// long streams (memory clause): Free discipline and buffer size in rotation -- at once / one / three tokens late, with a
+		// small buffer so that the stream is many times the bound of Stream.tla, plus one larger size
+		longLag, longSize := 0, 16
 		if isLong {
-			nfr = 2000 + rng.Intn(6000)
+			longLag = []int{0, 1, 3, 0, 1, 3}[(t-*n-1)%6]
+			longSize = []int{16, 16, 16, 256, 64, 64}[(t-*n-1)%6]
+			nfr = 4000 + rng.Intn(2000)
 		}
 		var data []byte
 		for i := 0; i < nfr; i++ {
@@ -372,7 +382,7 @@ func Record(args []string) {
 		sc.Data = tr.Ints(data)
 		sc.Size = sizes[rng.Intn(len(sizes))]
 		if isLong {
-			sc.Size = []int{16, 64, 256}[rng.Intn(3)]
+			sc.Size = longSize
 		}
 		switch rng.Intn(10) {
 		case 0:
@@ -415,6 +425,13 @@ func Record(args []string) {
 			disc = 1
 		}
 		wd.Case(map[string]interface{}{"mode": sc.Mode, "size": sc.Size, "endKind": sc.EndKind, "sched": sc.Sched, "data": sc.Data, "note": "random history; ops are in the trace so far"})
+		lag := 0
+		if isLong {
+			lag = longLag
+		}
+		if isLong || disc == 1 { // the memory clause: only where every shifted token is freed, at once or after `lag` later tokens
+			sc.MemK = &lag
+		}
 		w.Begin(t)
 		x := start(w, &sc)
 		sum.Executions++
@@ -424,10 +441,6 @@ func Record(args []string) {
 			nsteps = 1 << 30
 		}
 		peeked := 0 // how far ahead of absPos a Peek has looked without seeing the end
-		lag := 0
-		if isLong {
-			lag = []int{0, 1, 3}[(t-*n)%3]
-		}
 		var pending []int
 		for s := 0; s < nsteps; s++ {
 			var o op
@@ -565,6 +578,10 @@ func Rerun(args []string) {
 	}
 	n0 := evs[0]
 	sc := scenario{Mode: n0["mode"].(string), EndKind: n0["endKind"].(string), Size: num(n0, "size"), NoTrackLexeme: n0["noTrackLexeme"] == true}
+	if v, ok := n0["memk"].(float64); ok && v >= 0 {
+		k := int(v)
+		sc.MemK = &k
+	}
 	for _, v := range n0["data"].([]interface{}) {
 		sc.Data = append(sc.Data, int(v.(float64)))
 	}
